@@ -309,7 +309,6 @@ func (l *Log) Consume(n *gomavlib.Node, max int, onEvent func(gomavlib.Event)) (
 func ResetGlobals() {
 	vnet.ResetHooks()
 	vrand.Next = 7
-	gomavlib.VerifSetReconnectPeriod(2 * time.Second)
 	gomavlib.VerifSetSerialOpenFunc(func(string, int) (io.ReadWriteCloser, error) {
 		return nil, errors.New("no serial port in this scenario")
 	})
